@@ -765,7 +765,7 @@ func TestC41(t *testing.T) {
 			"faults are applied to survey responses only; requests and node-info messages are delivered reliably",
 			"response ids are not rewritten by the bus: a 'foreign' response is one for a survey that already ended, delivered while later surveys of the same issuer are open",
 		},
-		Cases:           map[string]int{"quick": 700, "thorough": 10000},
+		Cases:           map[string]int{"quick": 800, "thorough": 12000},
 		RequireCounters: []string{"surveys_complete_before_deadline", "surveys_ended_at_deadline", "surveys_ended_at_default_deadline", "responses_delivered_fault_dup", "responses_delivered_fault_burst", "responses_delivered_fault_late", "responses_delivered_fault_short", "responses_dropped_by_bus", "responses_delivered_after_survey_returned", "late_responses_delivered_while_another_survey_of_the_issuer_was_open", "surveys_to_all", "surveys_to_one", "surveys_to_self", "bus_parallel_delivery_cases", "bus_fifo_delivery_cases", "partial_results_at_deadline"},
 		Run:             runCase,
 	})
